@@ -344,10 +344,8 @@ Definition handle_set_working_directory (u : unit) (unit_path : str) (svc : unit
           | Some (_ :: _) => COk ([], svc)
           | _ =>
               do f <- abs_from_unit rel unit_path;
-              match parent f with
-              | Some d => COk (context, unit_add svc SEC_S (L "WorkingDirectory") d)
-              | None => CPanic               (* .parent().expect("should have a parent directory") *)
-              end
+              (* .parent().unwrap_or(itself): "/" has no parent (repaired; the pinned code panicked here) *)
+              COk (context, unit_add svc SEC_S (L "WorkingDirectory") (match parent f with Some d => d | None => f end))
           end
       end
   end.
